@@ -1,34 +1,35 @@
 ID = "C17"
-LEVEL = "other"
+LEVEL = "proof"
 COQ_TARGETS = ["Props/Properties_C17.vo", "Extract/ExtractValue.vo"]
 PROPS_FILES = ["Props/Properties_C17.v"]
 RUNS = [dict(name="equal", harness="c17", driver="value", model_ml="value_model", driver_args=["c17"])]
 EXPLANATION = ("capnp.Equal is modelled step by step (coq/Value/EqualM.v: bytewise fast path, traversal-limit consumption, error "
-               "and panic paths, two messages or one) over the read-side model; the documented equality value_eq "
-               "(coq/Value/ValueEq.v) is proved reflexive and symmetric (and shown non-transitive). On every generated pair the "
-               "harness compares capnp.Equal with the extracted equal_m (result, remaining traversal budgets) AND with value_eq "
-               "of the walked trees. The model-level theorem equal_m = value_eq o denote is stated in full but proved only "
-               "for null pointers, kind mismatches and capabilities; reflexivity / symmetry / layout independence of equal_m "
-               "are derived from it (..._if).")
+               "and panic paths, two messages or one) over the read-side model. Theorem C17_equal_m_correct: for all messages, "
+               "pointers, fuel and remaining budgets, whenever the (repaired) model answers (b, nil), b = value_eq of the values "
+               "the two pointers denote (coq/Value/Den.v: the value of a pointer, defined directly on the message bytes); "
+               "reflexivity, symmetry and layout independence follow; the documented equality value_eq "
+               "(coq/Value/ValueEq.v) is reflexive, symmetric and not transitive. On every generated pair the harness "
+               "compares capnp.Equal with the extracted equal_m (result, remaining traversal budgets) AND with value_eq of the "
+               "walked trees.")
 TRUSTED = ["model coq/Value/EqualM.v hand-written from pointer.go (Equal); clients are abstract identities (IsSame = equality "
            "of ids, 0 = nil client; unresolved promises, released clients are outside the model)",
            "the documented equality coq/Value/ValueEq.v is a reading of Equal's doc comment; two decisions where it is silent "
            "(bit lists have no struct view; non-struct lists of different element kinds are unequal even when empty) follow the "
            "encoding specification and are stated in the file header",
-           "the tie between equal_m and value_eq on structs and lists is the correspondence run, not a theorem "
-           "(equal_m_correct_statement is unproved beyond the ..._partial cases)"]
+           "den (coq/Value/Den.v) is the proof's notion of 'the value a pointer denotes'; that the harness's denote-of-walk "
+           "computes the same value is checked by the run (value_eq of the walked trees = Equal on every case), not proved"]
 MODELLED = ["capnp.Client identity (abstract ids)", "Go slices with cap == len (the harness copies every segment)"]
-ASSUMPTIONS = ["far pointers land on non-null words (far_ok): a far pointer to a null word reads as null through Struct.Ptr but as "
-               "present through Struct.HasPtr (observation O3, not generated)",
-               "64-bit platform; segment bytes are 0..255"]
-LEVEL_TEXT = ("Other: proved for all value trees: the documented equality is reflexive and symmetric, contains the schema-level "
-              "equality, and is not transitive (witnesses: list upgrade, nil clients). Proved for all pointers/messages: Equal on "
-              "null pointers and on capabilities is value_eq of the denoted values. The general model-level statement "
-              "(structs, lists) is stated, not proved; it is checked by a differential run: capnp.Equal vs extracted equal_m vs "
-              "value_eq of the walked trees on value pairs in random layouts. Defect F01 found by that run and fixed; the pre-fix "
-              "model is kept with the witness C17_equal_prefix_refuted.")
-LEVEL_NOTE = ("Trusted: Coq kernel, extraction, harness, hand-written model. Not proved: equal_m = value_eq o denote for structs "
-              "and lists (fast path vs element-wise, zero extension over bytes): correspondence only.")
+ASSUMPTIONS = ["message bytes are 0..255 and segments are shorter than 2^32 - 8 bytes (msg_ok); 64-bit platform",
+               "the statement is conditional on Equal returning (b, nil): with exhausted traversal or depth limits it returns an error"]
+LEVEL_TEXT = ("Proof: for all value trees the documented equality is reflexive, symmetric, contains the schema-level equality "
+              "and is not transitive (witnesses). For all messages, all pairs of pointers (one message or two), all fuel and "
+              "budgets: if the repaired model of Equal answers (b, nil) then b = value_eq of the denoted values "
+              "(C17_equal_m_correct: structs with zero extension of data and pointer sections, all list kinds with the "
+              "bytewise fast path and the primitive/pointer-list upgrade, bit lists, capabilities, null); hence Equal is "
+              "reflexive, symmetric and independent of the layout (C17_equal_refl/sym/layout_independent). The model is tied "
+              "to pointer.go by a differential run (capnp.Equal vs extracted equal_m vs value_eq of the walked trees) on value "
+              "pairs in random layouts. Defects F01 and O3 found by that run and fixed; pre-fix models kept with witnesses.")
+LEVEL_NOTE = ("Trusted: Coq kernel, extraction, harness, hand-written model. den vs the walker's denote is tied by the run only.")
 TECHNIQUE = "Coq proof over an executable model + extracted-model/implementation differential run"
 DESIGN_REF = "DESIGN.md section 6, C17"
 
